@@ -341,3 +341,45 @@ func siblingCollisionSetCase(i int) *sem.Case {
 	}
 	return c
 }
+
+// intFormatCase: integer positions that carry an OpenAPI-style format annotation (int32, int64, uint8 ...; "format"
+// says nothing about validity of numbers) with no, one-sided and two-sided bounds, at required / nullable / definition /
+// item positions; documents on and next to every 8/16/32-bit limit on the open side. With --min-sized-ints the chosen
+// type still has to hold every integer the BOUNDS admit.
+func intFormatCase(i int) *sem.Case {
+	formats := []string{"int32", "int64", "uint8", "int8", "int16", "uint16", "uint32", "uint64", "byte"}
+	f := formats[i%len(formats)]
+	shape := (i / len(formats)) % 6
+	mk := func() *sg.Schema {
+		s := &sg.Schema{Types: []string{"integer"}, Format: f}
+		switch shape {
+		case 1:
+			s.Min = sg.Fp(0)
+		case 2:
+			s.Max = sg.Fp(100)
+		case 3:
+			s.Min = sg.Fp(-5)
+		case 4:
+			s.ExMin = float64(-1)
+		case 5:
+			s.Min, s.Max = sg.Fp(0), sg.Fp(70000)
+		}
+		return s
+	}
+	def := mk()
+	nul := mk()
+	nul.Types = []string{"integer", "null"}
+	root := &sg.Schema{Types: []string{"object"}, Defs: []sg.Prop{{Name: "Width", S: def}}, Props: []sg.Prop{{Name: "req", S: mk()}, {Name: "opt", S: mk()}, {Name: "nul", S: nul},
+		{Name: "ref", S: &sg.Schema{Ref: "#/$defs/Width", Target: def}}, {Name: "list", S: &sg.Schema{Types: []string{"array"}, Items: mk()}}}, Required: []string{"req"}}
+	c := &sem.Case{Root: root, Sig: fmt.Sprintf("int-format/%s/%d", f, shape), NoAuto: true}
+	for _, v := range []int64{0, 1, -1, 100, 101, -5, -6, 127, 128, -128, -129, 255, 256, 32767, 32768, -32768, -32769, 65535, 65536, 70000, 70001,
+		2147483647, 2147483648, -2147483648, -2147483649, 4294967295, 4294967296, 1 << 40, -(1 << 40), 1 << 53, -(1 << 53), 1 << 62, -(1 << 62)} {
+		c.Docs = append(c.Docs, docgen.Doc{V: jsonx.Obj{{K: "req", V: jsonx.N(v)}}, Class: "bound", Label: "limit-req"})
+		if v%2 == 0 || v > 1<<31 || v < -(1<<31) {
+			c.Docs = append(c.Docs, docgen.Doc{V: jsonx.Obj{{K: "req", V: jsonx.N(1)}, {K: "opt", V: jsonx.N(v)}, {K: "nul", V: jsonx.N(v)}}, Class: "bound", Label: "limit-opt"},
+				docgen.Doc{V: jsonx.Obj{{K: "req", V: jsonx.N(1)}, {K: "ref", V: jsonx.N(v)}, {K: "list", V: []any{jsonx.N(1), jsonx.N(v)}}}, Class: "bound", Label: "limit-ref-item"})
+		}
+	}
+	c.Docs = append(c.Docs, docgen.Doc{V: jsonx.Obj{{K: "req", V: jsonx.N(1)}, {K: "nul", V: nil}}, Class: "nullok", Label: "null"})
+	return c
+}
